@@ -38,13 +38,18 @@ def run(ctx):
     e = vlib.go_func_body("circuit/evaluator.go", r"Evaluator\(")
     ctx.fact("message sequence of circuit.Garbler", calls(g or ""), EXPECT_GARBLER)
     ctx.fact("message sequence of circuit.Evaluator", calls(e or ""), EXPECT_EVALUATOR)
+    ctx.fact("circuit.Garbler keeps its garbling alive (no Release) while it still uses the wire table",
+             len(re.findall(r"\.Release\(\)", vlib.strip_go_comments(g or ""))), 0)
     quick = ctx.tier == "quick"
     if ctx.build_hx():
-        plan = [("ideal", 150 if quick else 3000), ("real", 35 if quick else 400)]
+        plan = [("ideal", 150 if quick else 3000), ("real", 35 if quick else 400), ("compiled", 36 if quick else 450),
+                ("shared", 6 if quick else 60)]
         for mode, n in plan:
             ops, out, meta = ctx.run_hx(mode, n, timeout=1500)
             ctx.absorb_meta(meta, prefix=mode + "_")
-            what = ("both transcripts byte-exact + results" if mode == "ideal" else "results with RSA/CO/COT/COT-malicious")
+            what = {"ideal": "both transcripts byte-exact + results", "real": "results with RSA/CO/COT/COT-malicious",
+                    "compiled": "compiled MPCL programs incl. struct/array arguments, results",
+                    "shared": "24 overlapping sessions per round on ONE shared circuit value, transcripts + results"}[mode]
             ctx.correspond("%s sessions (%s)" % (mode, what), ops, out)
             for line in open(ops, errors="replace"):
                 ctx.distinct.add(hashlib.sha1(line.encode()).digest())
